@@ -124,6 +124,11 @@ def template_programs(kind: str, rng) -> list:
             progs.append([["call", 0, m, 0], ["assign", 0, var, a1], ["copy", 0, False], ["call", 1, m, 0], ["assign", 1, var, a2], ["call", 1, m, 0],
                           ["call", 0, m, 0]])
             progs.append([["call", 0, m, 0], ["copy", 0, False], ["assign", 0, var, a1], ["call", 1, m, 0], ["call", 0, m, 0]])
+            # the method is evaluated for the first time on a read-only snapshot (optionally pickled); a writable copy of
+            # the snapshot is then re-assigned and the method called again
+            progs.append([["copy", 0, True], ["call", 1, m, 0], ["copy", 1, False], ["assign", 2, var, a1], ["call", 2, m, 0], ["call", 1, m, 0]])
+            progs.append([["copy", 0, True], ["pickle", 1], ["call", 1, m, 0], ["copy", 1, False], ["assign", 2, var, a2], ["call", 2, m, 0],
+                          ["assign", 0, var, a1], ["call", 0, m, 0]])
     return progs
 
 
